@@ -52,6 +52,10 @@ func (core *JApiCore) processPasteDirective(paste *directive.Directive) *jerr.JA
 	core.verifPasteEnter()
 	defer core.verifPasteLeave()
 
+	if _, ok := core.bannedDirectives[directive.Paste]; ok {
+		return paste.KeywordError(fmt.Sprintf("%s (%s)", jerr.DirectiveNotAllowed, directive.Paste.String()))
+	}
+
 	if paste.Annotation != "" {
 		return paste.KeywordError(jerr.AnnotationIsForbiddenForTheDirective)
 	}
